@@ -22,10 +22,11 @@ Definition key_of_addr (a : addr) : addr :=
   | V6 => mkAddr V6 (N.land (abits u) (mask6 64)) []            (* ip.Mask(net.CIDRMask(64, 128)) *)
   end.
 
-(* faithful: net.ParseIP rejects every address that carries a zone, so the key is "" (never limited) *)
+(* faithful to today's ipKey (after fix commit 2006028): netip.ParseAddr, WithZone(""), AsSlice,
+   To4 / Mask -- every IP address is grouped, a zone does not matter *)
 Definition impl_ip_key (s : bytes) : option addr :=
-  match parse_ip_legacy s with
-  | Some a => Some (key_of_addr a)
+  match parse_addr s with
+  | Some a => Some (key_of_addr (strip_zone a))
   | None => None
   end.
 
@@ -36,7 +37,15 @@ Definition spec_ip_key (s : bytes) : option addr :=
   | None => None
   end.
 
-(* trigger of finding C34-1: a parsable address with a zone *)
+(* PRE-FIX variant (before commit 2006028, finding C34-1, now fixed): net.ParseIP rejected every
+   address that carries a zone, so the key was "" and such a peer was never limited *)
+Definition prefix_ip_key (s : bytes) : option addr :=
+  match parse_ip_legacy s with
+  | Some a => Some (key_of_addr a)
+  | None => None
+  end.
+
+(* trigger of the fixed finding C34-1: a parsable address with a zone *)
 Definition zone_trigger (s : bytes) : bool :=
   match parse_addr s with Some a => has_zone a | None => false end.
 
